@@ -249,9 +249,13 @@ fn optval_strategy(kind: u8) -> BoxedStrategy<OptVal> {
         3 => any::<u8>().prop_map(OptVal::U8).boxed(),
         4 => any::<u16>().prop_map(OptVal::U16).boxed(),
         5 => any::<bool>().prop_map(OptVal::Bool).boxed(),
-        6 => prop_oneof![Just(0u32), Just(u32::MAX), any::<u32>(), 0u32..100000]
-            .prop_map(OptVal::Secs32)
-            .boxed(),
+        // incl. both sides of the bounds the server keeps lease times within
+        6 => prop_oneof![
+            Just(0u32), Just(u32::MAX), any::<u32>(), 0u32..100000,
+            Just(1u32), Just(60), Just(120), Just(299), Just(300), Just(301), Just(86400), Just(86401),
+        ]
+        .prop_map(OptVal::Secs32)
+        .boxed(),
         _ => prop_oneof![Just(i32::MIN), Just(-1i32), Just(i32::MAX), any::<i32>()]
             .prop_map(OptVal::I32)
             .boxed(),
@@ -703,6 +707,13 @@ pub fn build_request(c: &PolicyCase, msgtype: u8, client_id: Option<Vec<u8>>, re
     }
     if let Some(sz) = c.max_message_size() {
         m.options.push((57, sz.to_be_bytes().to_vec()));
+    }
+    // the client's own wish for a lease time
+    match (c.style as u32 * 13 + c.mac as u32) % 7 {
+        0 => m.options.push((wire::OPT_LEASE_TIME, 120u32.to_be_bytes().to_vec())),
+        1 => m.options.push((wire::OPT_LEASE_TIME, 0u32.to_be_bytes().to_vec())),
+        2 => m.options.push((wire::OPT_LEASE_TIME, u32::MAX.to_be_bytes().to_vec())),
+        _ => {}
     }
     dhcp::DHCPRequest {
         pkt: dhcppkt::parse(&m.encode()).expect("harness request parses"),
